@@ -73,24 +73,30 @@ def _rel(home, p):
     return posixpath.normpath(os.path.relpath(os.path.normpath(p), home))
 
 
+def _unhome(home, lines):
+    """source lines as they are in the case (absolute paths of the work dir are `{HOME}` in a case)"""
+    return [x.replace(home, '{HOME}') for x in lines]
+
+
 def _location_path(home, base_dir, links):
     """links: SourceLocation sequence (paths relative to the referrer) -> [(file rel home, line, [lines])]"""
     out = []
     base = base_dir
     for link in links:
         if link.file_path_rel_referrer is None:
-            out.append((None, link.source.first_line_number, list(link.source.lines)))
+            out.append((None, link.source.first_line_number, _unhome(home, link.source.lines)))
             continue
         p = os.path.join(base, str(link.file_path_rel_referrer))
         src = link.source
         out.append((_rel(home, p), None if src is None else src.first_line_number,
-                    None if src is None else list(src.lines)))
+                    None if src is None else _unhome(home, src.lines)))
         base = os.path.dirname(p)
     return out
 
 
-def observe_api(home, root=ROOT):
-    """-> {'phases': {...}} or {'error': {...}}; the process cwd is restored."""
+def observe_api(home, root=ROOT, root_abs=False):
+    """-> {'phases': {...}} or {'error': {...}}; the process cwd is restored.
+    root_abs: the test case file is given by its absolute path"""
     driver._import_exactly()
     import pathlib
     from exactly_lib.processing.test_case_processing import test_case_reference_of_source_file
@@ -100,7 +106,7 @@ def observe_api(home, root=ROOT):
     saved = os.getcwd()
     os.chdir(home)
     try:
-        path = pathlib.Path(root)
+        path = pathlib.Path(os.path.join(home, root) if root_abs else root)
         with open(root, encoding='utf-8') as f:
             text = f.read()
         old_handler = signal.signal(signal.SIGALRM, driver._alarm_handler)
@@ -117,13 +123,13 @@ def observe_api(home, root=ROOT):
             loc = _location_path(home, home, ex.location_path)
             return {'error': {'kind': 'syntax', 'msg': ex.message, 'section': ex.maybe_section_name,
                               'chain': loc[:-1], 'file': loc[-1][0], 'line': loc[-1][1], 'lines': loc[-1][2],
-                              'source': [ex.source.first_line_number, list(ex.source.lines)]}}
+                              'source': [ex.source.first_line_number, _unhome(home, ex.source.lines)]}}
         except exceptions.FileAccessError as ex:
             loc = _location_path(home, home, ex.location_path)
             return {'error': {'kind': 'access', 'msg': ex.message.replace(home, '{HOME}'),
                               'section': ex.maybe_section_name, 'chain': loc[:-1],
                               'file': loc[-1][0], 'line': loc[-1][1], 'lines': loc[-1][2],
-                              'erroneous_path': str(ex.erroneous_path)}}
+                              'erroneous_path': str(ex.erroneous_path).replace(home, '{HOME}')}}
         except Exception as ex:  # anything else escaping the parser (RecursionError of an undetected cycle ...)
             import traceback
             return {'crash': '%s: %s' % (type(ex).__name__, str(ex)[:300]),
@@ -138,7 +144,7 @@ def observe_api(home, root=ROOT):
                 loc = _location_path(home, str(sli.abs_path_of_dir_containing_first_file_path),
                                      list(sli.file_inclusion_chain) + [sli.source_location_path.location])
                 src = e.source
-                els.append({'file': loc[-1][0], 'line': src.first_line_number, 'lines': list(src.lines),
+                els.append({'file': loc[-1][0], 'line': src.first_line_number, 'lines': _unhome(home, src.lines),
                             'desc': e.instruction_info.description,
                             'chain': [list(c) for c in loc[:-1]]})
             phases[name] = els
@@ -147,7 +153,7 @@ def observe_api(home, root=ROOT):
         for e in tc.act_phase.elements:
             if e.element_type is ElementType.INSTRUCTION:
                 ls = e.instruction_info.instruction.source_code()
-                act_code.append([ls.first_line_number, list(ls.lines)])
+                act_code.append([ls.first_line_number, _unhome(home, ls.lines)])
         return {'phases': phases, 'act_code': act_code}
     finally:
         os.chdir(saved)
@@ -171,13 +177,18 @@ def _flatten_act(elements):
     return out
 
 
-def compare_phases(exp_phases, obs):
-    """-> None or (bucket, detail)"""
+def compare_phases(exp_phases, obs, prefix=False):
+    """-> None or (bucket, detail);  prefix: the expected contents are what precedes a place from which on the
+    document has no single reading - the observed contents of every phase must start with them"""
     obs_phases = obs['phases']
     for ph in ref.PHASES:
         if ph == 'act':
             e_act = exp_phases['act']
             o_act = _flatten_act(obs_phases['act'])
+            if prefix:
+                o_act = o_act[:len(e_act)]
+                obs = dict(obs)
+                obs['act_code'] = None
             if e_act != o_act:
                 k = 0
                 while k < min(len(e_act), len(o_act)) and e_act[k] == o_act[k]:
@@ -186,13 +197,15 @@ def compare_phases(exp_phases, obs):
                                       'expected': e_act[k:k + 3], 'observed': o_act[k:k + 3],
                                       'n_expected': len(e_act), 'n_observed': len(o_act)})
             # the code handed to the actor is the same text
-            code = [t for _, ls in obs.get('act_code', []) for t in ls]
-            if code != [x['text'] for x in e_act]:
+            code = [t for _, ls in obs['act_code'] or [] for t in ls]
+            if obs['act_code'] is not None and code != [x['text'] for x in e_act]:
                 return ('act-source-code', {'expected': [x['text'] for x in e_act], 'observed': code})
             continue
         e_els, o_els = exp_phases[ph], obs_phases[ph]
         for k in range(max(len(e_els), len(o_els))):
             if k >= len(e_els):
+                if prefix:
+                    break
                 return ('extra-instruction', {'phase': ph, 'index': k, 'observed': o_els[k]})
             if k >= len(o_els):
                 return ('missing-instruction', {'phase': ph, 'index': k, 'expected': e_els[k]})
@@ -257,17 +270,26 @@ def _labels_of(r):
     return labels
 
 
+def _root_label(case):
+    return 'root:' + ('in-cwd' if '/' not in case.get('root', ROOT) else 'in-sub-dir') + \
+        (',absolute-path' if case.get('root_abs') else '')
+
+
+def _root_arg(ws, case):
+    root = case.get('root', ROOT)
+    return os.path.join(ws.home, root) if case.get('root_abs') else root
+
+
 def check_api(case) -> Verdict:
     files = case['files']
     links = case.get('symlinks')
-    r = ref.read_document(files, ROOT, symlinks=links)
-    labels = _labels_of(r)
-    if r.ambiguous:
-        return Verdict(True, nontrivial=False, labels=labels)  # both readings accepted: nothing to compare
-    nontrivial = _is_nontrivial(r)
+    root = case.get('root', ROOT)
+    r = ref.read_document(files, root, symlinks=links)
+    labels = _labels_of(r) + [_root_label(case)]
+    nontrivial = _is_nontrivial(r) and not r.ambiguous
     with driver.Workspace() as ws:
         _materialise(ws, case)
-        obs = observe_api(ws.home)
+        obs = observe_api(ws.home, root, bool(case.get('root_abs')))
 
     if 'timeout' in obs:
         return Verdict(inconclusive=True, labels=labels + ['alarm'])
@@ -276,28 +298,46 @@ def check_api(case) -> Verdict:
                     {'observed': obs, 'expected_error': r.error, 'files': files}, labels=labels, nontrivial=nontrivial)
 
     def verdict_for(rr):
+        if rr.ambiguous:
+            # no single reading from some place on: what precedes that place must be there (if a document is read)
+            if 'error' in obs:
+                return None
+            bad_ = compare_phases(rr.phases, obs, prefix=True)
+            return None if bad_ is None else ('before-no-single-reading/' + bad_[0], bad_[1])
         if rr.error is not None:
             if 'error' not in obs:
                 n = {p: len(v) for p, v in obs['phases'].items()}
                 return ('no-error/%s' % rr.error['what'], {'expected': rr.error, 'observed_element_counts': n})
-            return compare_error(rr.error, obs['error'], files, links)
+            bad_ = compare_error(rr.error, obs['error'], files, links)
+            if bad_ is not None:
+                # the manual does not say which of several errors is reported
+                for later in rr.later_errors:
+                    if compare_error(later, obs['error'], files, links) is None:
+                        order.append('reported-error:a-later-one' + (
+                            '(first-one-is-unfinished-instruction-then-header)'
+                            if {'incomplete-then-header', 'list-continuation-then-header'} & rr.labels else ''))
+                        return None
+            else:
+                order.append('reported-error:the-first-one')
+            return bad_
         if 'error' in obs:
             return ('unexpected-error/%s' % obs['error']['kind'], {'observed': obs['error']})
         return compare_phases(rr.phases, obs)
 
+    order = []
     bad = verdict_for(r)
     if bad is not None and 'list-continuation-then-header' in r.labels:
         # second documented reading: the continued list just has no more elements
-        if verdict_for(ref.read_document(files, ROOT, list_reading='complete', symlinks=links)) is None:
+        if verdict_for(ref.read_document(files, root, list_reading='complete', symlinks=links)) is None:
             bad = None
             labels.append('reading:list-continuation-complete')
     if bad is None:
-        return Verdict(True, nontrivial=nontrivial, labels=labels)
+        return Verdict(True, nontrivial=nontrivial, labels=labels + order[-1:])
     detail = dict(bad[1])
     detail['files'] = files
     if 'incomplete-then-header' in r.labels or 'list-continuation-then-header' in r.labels:
         # defect model of KF-C07-1: the unfinished instruction swallowed the header line
-        r2 = ref.read_document(files, ROOT, swallow=True, symlinks=links)
+        r2 = ref.read_document(files, root, swallow=True, symlinks=links)
         if r2.swallowed and verdict_for(r2) is None:
             detail['defect_model'] = 'observation equals the reading in which the incomplete instruction takes ' \
                                      'the following header line as its argument'
@@ -345,7 +385,10 @@ def parse_location_block(err):
         while i < len(lines) and not _LOC_RE.match(lines[i]):
             region.append(lines[i])
             i += 1
-        locs.append((posixpath.normpath(m.group(1)), int(m.group(2)), region))
+        f = m.group(1)
+        if f.startswith('{HOME}/'):
+            f = f[len('{HOME}/'):]  # a file reached through an absolute path is displayed with its absolute path
+        locs.append((posixpath.normpath(f), int(m.group(2)), region))
     return section, locs
 
 
@@ -417,10 +460,13 @@ def _check_printed_location(r_out, r_err, exp, files):
 def check_cli_location(case) -> Verdict:
     files = case['files']
     plant = case['plant']
-    r = ref.read_document(files, ROOT)
+    root = case.get('root', ROOT)
+    r = ref.read_document(files, root)
     labels = ['plant:' + plant['kind'], 'plant-ident:' + plant['ident'], 'plant-phase:' + plant['phase'],
-              'plant-in-included' if plant['file'] != ROOT else 'plant-in-root',
+              'plant-in-included' if plant['file'] != root else 'plant-in-root',
+              _root_label(case),
               'incl-depth:%d' % r.max_depth] + (['plant-described'] if plant['desc'] else [])
+    labels += sorted(r.labels & {'inclusion-absolute-path', 'inclusion-other-dir', 'inclusion-through-symlink'})
     if r.error is not None:
         if {'syntax': 'SYNTAX_ERROR', 'access': 'FILE_ACCESS_ERROR'}[r.error['kind']] != plant['ident']:
             raise AssertionError('planted %r but the reference reads %r' % (plant, r.error))
@@ -443,7 +489,8 @@ def check_cli_location(case) -> Verdict:
             labels.append('planted-multi-line')
     with driver.Workspace() as ws:
         _materialise(ws, case)
-        res = driver.run_inproc(ws, [ROOT])
+        res = driver.run_inproc(ws, [_root_arg(ws, case)])
+        res.err = res.err.replace(ws.home, '{HOME}')
     ident = res.out[:-1] if res.out.endswith('\n') and res.out.count('\n') == 1 else None
     base = {'files': files, 'plant': plant, 'exit': res.exit_code, 'stdout': res.out[:200], 'stderr': res.err[:1500]}
 
@@ -453,7 +500,7 @@ def check_cli_location(case) -> Verdict:
         if plant['kind'] == 'incomplete':
             # defect model KF-C07-1 (the incomplete instruction swallows the header line): the reading with the
             # swallowed header decides what is reported
-            r2 = ref.read_document(files, ROOT, swallow=True)
+            r2 = ref.read_document(files, root, swallow=True)
             if r2.swallowed:
                 ok2 = False
                 if r2.error is None:
@@ -494,10 +541,10 @@ def _phase_sequences(r):
     return seq
 
 
-def permute_blocks(files, swaps):
+def permute_blocks(files, swaps, root=ROOT):
     """Permutes the phase blocks of every file that is read, by adjacent swaps of blocks that contribute to
     disjoint sets of phases (so the per-phase order of contents is kept).  -> (new files, number of swaps done)"""
-    r = ref.read_document(files, ROOT)
+    r = ref.read_document(files, root)
     if r.error is not None:
         raise AssertionError('permutation of an erroneous document: %r' % (r.error,))
     new_files = dict(files)
@@ -513,7 +560,7 @@ def permute_blocks(files, swaps):
         lead = lines[:borders[0]]
         pinned = []
         if lead:
-            if path == ROOT:
+            if path == root:
                 blocks.insert(0, ['[act]'] + lead)
                 ranges.insert(0, (0, borders[0]))
             else:
@@ -542,16 +589,16 @@ def permute_blocks(files, swaps):
         for b in blocks:
             new_lines.extend(b)
         new_files[path] = '\n'.join(new_lines) + '\n'
-    r2 = ref.read_document(new_files, ROOT)
+    r2 = ref.read_document(new_files, root)
     if r2.error is not None or _phase_sequences(r2) != _phase_sequences(r):
         raise AssertionError('permutation changed the per-phase contents (harness bug)')
     return new_files, done
 
 
-def _run_keep(case_files, dirs):
+def _run_keep(case_files, dirs, case):
     with driver.Workspace() as ws:
         _materialise(ws, {'files': case_files, 'dirs': dirs})
-        res = driver.run_inproc(ws, ['--keep', ROOT])
+        res = driver.run_inproc(ws, ['--keep', _root_arg(ws, case)])
         tree = None
         sds = res.out[:-1] if res.out.endswith('\n') else res.out
         if sds and os.path.isdir(sds) and os.path.dirname(sds) == ws.tmproot:
@@ -567,14 +614,16 @@ def _run_keep(case_files, dirs):
 
 def check_cli_permutation(case) -> Verdict:
     files = case['files']
-    files2, n_swaps = permute_blocks(files, case['swaps'])
-    r = ref.read_document(files, ROOT)
+    root = case.get('root', ROOT)
+    files2, n_swaps = permute_blocks(files, case['swaps'], root)
+    r = ref.read_document(files, root)
     labels = ['swaps:%s' % (n_swaps if n_swaps < 4 else '4+'), 'incl-depth:%d' % r.max_depth,
               'planted:%s' % (case['plant']['ident'] if case.get('plant') else 'none')]
     labels += [l for l in sorted(r.labels) if l in ('repeated-phase', 'inclusion', 'included-switches-phase',
                                                      'act-in-included', 'here-doc-with-header-line')]
-    a = _run_keep(files, case.get('dirs', []))
-    b = _run_keep(files2, case.get('dirs', []))
+    labels.append(_root_label(case))
+    a = _run_keep(files, case.get('dirs', []), case)
+    b = _run_keep(files2, case.get('dirs', []), case)
     labels.append('ident:' + a['ident'])
     labels.append('markers:%s' % (len(a['markers']) if len(a['markers']) < 3 else '3+'))
     nontrivial = n_swaps > 0
@@ -627,9 +676,9 @@ SUBS = [
     Sub('manual_agrees', check_manual, enumerate=lambda tier: [{'what': 'instructions'}], exhaustive=True,
         shards={'quick': 1, 'thorough': 1}),
     Sub('api_small_exhaustive', check_api, enumerate=gen.enumerate_small, exhaustive=True),
-    Sub('api_documents', check_api, strategy=gen.api_strategy, budget={'quick': 30000, 'thorough': 600000}),
+    Sub('api_documents', check_api, strategy=gen.api_strategy, budget={'quick': 30000, 'thorough': 800000}),
     Sub('cli_locations', check_cli_location, strategy=gen.cli_location_strategy,
-        budget={'quick': 2400, 'thorough': 40000}),
+        budget={'quick': 2400, 'thorough': 50000}),
     Sub('cli_permutation', check_cli_permutation, strategy=gen.cli_permutation_strategy,
-        budget={'quick': 1400, 'thorough': 25000}),
+        budget={'quick': 1400, 'thorough': 30000}),
 ]
